@@ -889,6 +889,17 @@ impl<'a> Message<'a> {
                 actual: data.len(),
             });
         }
+        if mlength + MessageHeader::LENGTH < data.len() {
+            warn!(
+                "malformed advertised size {:?} is smaller than data size {:?}",
+                mlength + 20,
+                data.len()
+            );
+            return Err(StunParseError::TooLarge {
+                expected: mlength + MessageHeader::LENGTH,
+                actual: data.len(),
+            });
+        }
 
         let mut data_offset = MessageHeader::LENGTH;
         let mut data = &data[MessageHeader::LENGTH..];
